@@ -1,9 +1,25 @@
-"""Warm the object cache: every probe the checks use, built from /repo's current working tree."""
-import sys, os, time
-sys.path.insert(0, os.path.dirname(os.path.abspath(__file__)))
+"""Warm the object cache: every probe the checks use (each lib/props/cNN.py lists them in PROBES as
+(name, variant, runtime-files-or-None, [schemas]) or as a zero-argument callable), built from /repo's
+current working tree."""
+import importlib, os, re, sys, time
+HERE = os.path.dirname(os.path.abspath(__file__))
+sys.path.insert(0, HERE)
 import build
 t = time.time()
 build.f8c()
-for args in [("probe_persist", "asan", None, ["utest"])]:
-    name, variant, runtime, schemas = args
-    print(name, build.probe(name, variant, runtime, schemas), round(time.time() - t, 1), flush=True)
+seen = set()
+for f in sorted(os.listdir(os.path.join(HERE, "props"))):
+    m = re.fullmatch(r"(c\d+)\.py", f)
+    if not m:
+        continue
+    mod = importlib.import_module("props." + m.group(1))
+    for p in getattr(mod, "PROBES", []):
+        if callable(p):
+            print(m.group(1), p(), round(time.time() - t, 1), flush=True)
+            continue
+        key = repr(p)
+        if key in seen:
+            continue
+        seen.add(key)
+        name, variant, runtime, schemas = p
+        print(name, build.probe(name, variant, runtime, schemas), round(time.time() - t, 1), flush=True)
